@@ -273,10 +273,13 @@ def judge(plan: dict[str, Any], events: list[list[Any]], outcome: tuple[str, Any
             done(*outs)
 
     MISSING = ("raise", "MissingResponse")
+    cur_conn: int | None = None
     for ev in events:
         kind, d = ev[3], ev[4]
         if kind in ("call", "return", "raise"):
             continue
+        if kind == "connected" and d.get("conn") is not None and phase == "done":
+            cur_conn = d["conn"]
         if phase == "done":
             if also_continue and kind in ("write", "connect", "close", "connected", "closed"):
                 # the client chose to continue (allowed alternative)
@@ -295,6 +298,13 @@ def judge(plan: dict[str, Any], events: list[list[Any]], outcome: tuple[str, Any
                 violation(res, "C04/protocol", f"C04/protocol:{kind}-after-final-event",
                           f"transport {kind} after the sequence already implied the outcome {allowed}")
                 return
+        if kind == "connected" and d.get("conn") is not None:
+            cur_conn = d["conn"]
+        if kind in ("write", "read_begin") and cur_conn is not None and d.get("conn") is not None and d["conn"] != cur_conn:
+            # reconnect() returns a NEW transport object: the one it replaced is closed, nothing written to it is "on the wire"
+            violation(res, "C04/protocol", f"C04/protocol:{kind}-on-the-transport-replaced-by-reconnect",
+                      f"transport {kind} on connection {d['conn']} although reconnect() had replaced it by connection {cur_conn}")
+            return
         if kind in ("connect", "connected", "close", "closed"):
             continue
         if kind == "connect_error":
